@@ -9,6 +9,7 @@ CONSTANTS
   Secrets <- S1
   Questions <- Q0
   AllowEnd = TRUE
+  MaxRequery = 0
 INVARIANTS EmitWitness
 VIEW View
 CHECK_DEADLOCK FALSE
